@@ -215,7 +215,7 @@ func TestParseTwice(t *testing.T) {
 // trees and errors each time it comes round, and a tree kept from an earlier parse must not change
 // while later parses run (objects handed out by a parser's pools stay valid after the parser is gone).
 func TestParseHistory(t *testing.T) {
-	harness.Check(t, "parse-history", 600, 60000, func(rt *rapid.T) {
+	harness.Check(t, "parse-history", 600, 30000, func(rt *rapid.T) {
 		n := rapid.IntRange(2, 5).Draw(rt, "jobs")
 		jobs := make([]job, n)
 		twins := rapid.IntRange(0, 2).Draw(rt, "twins") == 0
